@@ -135,6 +135,7 @@ func init() {
 				c.Outcome(fmt.Sprint(names, ev))
 				if len(ex.Unsupp) > 0 {
 					c.CountN("unsupported_constructs_met", int64(len(ex.Unsupp)))
+					c.NotExhaustive("the library used a concurrency construct the interleaving explorer does not schedule (" + ex.Unsupp[0] + "): its interleavings are covered only by the free-running race pass")
 				}
 				for _, r := range ex.Races {
 					d["race"] = fmt.Sprintf("%s: [%s] unordered with [%s]", r.Loc, r.First, r.Second)
